@@ -31,7 +31,8 @@ META = {
              'castable type, contents starting with gzip / zlib magic numb'
              'ers, a second live dataset with the same keys, stored compre'
              'ssed_segmentation files decoded from the format description.'
-             " Round 12: regular label structure for compressed_segmentation chunks; a third of the datasets isotropic (cubic chunks and blocks)."),
+             " Round 12: regular label structure for compressed_segmentation chunks; a third of the datasets isotropic (cubic chunks and blocks)."
+             " Round 16/17: the array returned by the previous read_chunk is compared again after the next read."),
     "trusted_base": ["dict model", "independent on_grid predicate",
                      "JPEG tolerance max %d / mean %.1f grey levels on "
                      "smooth content (calibrated: observed max 8 / mean 1.2 "
